@@ -52,7 +52,11 @@ pub fn file_uri(dir: &Path, rel: &str) -> String {
 
 impl LspClient {
     pub fn start(dir: &Path) -> Result<LspClient, LspErr> {
-        let port = free_port();
+        Self::start_on_port(dir, free_port())
+    }
+
+    /// start the server with a given debug adapter port (which may be in use)
+    pub fn start_on_port(dir: &Path, port: u16) -> Result<LspClient, LspErr> {
         let mut child = Command::new(mos_bin())
             .args(["lsp", "-p", &port.to_string()])
             .current_dir(dir)
